@@ -62,6 +62,8 @@ CLAIMS = {
          "encoding/json itself is trusted; whole-spec JSON vs raw import equivalence is per extension type, not one lemma."),
  "C33": ("Panic-freedom (index, slice, nil dereference, type assertion, division, explicit panic) of the client functions that consume server messages: checkServerHelloOrHRR, processServerHello (1.2/1.3), readServerParameters, processHelloRetryRequest (non-ECH), establishHandshakeKeys, utlsReadServerParameters, utlsReadServerCertificate, decompressCert, the uTLS message parsers; decompressCert allocates exactly the declared length (<= 2^24).",
          "Termination/deadlines, allocation bounds in upstream parsers, record layer and the remaining handshake functions are not under contract; panics inside upstream unmarshal methods are assumed away (assume-pure)."),
+ "C34": ("Panic-freedom for arbitrary client bytes of the uTLS-specific paths a server's readHandshake reaches: utlsHandshakeMessageType is total (a fresh message object of the matching kind for the two uTLS message types, by role; unexpected_message alert and an error otherwise), utlsClientEncryptedExtensionsMsg.unmarshal, utlsCompressedCertificateMsg.unmarshal and readUint24LengthPrefixed never panic and accept exactly the stated encodings.",
+         "The rest of the server (upstream crypto/tls: record layer, ClientHello parsing, processECHClientHello) is not under contract; deadlines/termination are outside function contracts."),
  "C35": ("encryptTicket/decryptTicket: bounds, lengths, MAC computed over iv||ciphertext in both, keys tried in order, authentic/reject clauses under a symbolic HMAC/CTR model; TicketKeyFromBytes/ticketKeyFromBytes derive identical keys; TicketKey conversions.",
          "Round trip Decrypt(Encrypt(s))==s needs string extensionality across heap updates (not decided); real MAC strength is an idealisation; SessionState codec is upstream."),
  "C36": ("NewLRUClientSessionCache/Get/Put refine a sequential LRU map of capacity n: data-structure invariant, Get hit/miss and recency update, Put insert/update/evict-least-recent/delete-on-nil, size never above capacity (Put(nil) on an absent key: defect found and fixed, c37dfbd); container/list is an abstract sequence (trusted containers.vc).",
@@ -74,7 +76,6 @@ NA = {
  "C23": "handshakeContext channel/goroutine discipline: channel operations are outside the generator subset",
  "C25": "stream integrity over histories of Read/Write and cryptographic tamper detection are outside function contracts",
  "C26": "quantifies over goroutine schedules; the generator has no concurrency logic (DESIGN.md section 7)",
- "C34": "server-side uTLS message paths: not under contract (time), and interop with arbitrary clients is two-party",
 }
 
 def main():
